@@ -71,7 +71,10 @@ def ctor_invalid(c):
         reasons.append("unknown examples mode")
     if c["compression"] is not None and any(s in ("url_graph_input", "list_of_url_input", "url_endpoint") for s in c["sources"]):
         reasons.append("compression with a remote source")
-    if c["or"][0] and c["or"][1]:
+    # "omit": the argument is not passed at all; the documented defaults are disable_or_statements=True, allow_redundant_or=False
+    dis = True if c["or"][0] == "omit" else c["or"][0]
+    red = False if c["or"][1] == "omit" else c["or"][1]
+    if dis and red:
         reasons.append("allow_redundant_or while disjunctions are disabled")
     return reasons
 
@@ -128,6 +131,9 @@ def build_kwargs(c, d):
     comp = c["compression"] if c["compression"] in (None, "gz", "zip", "xz") else None
     kw = {"input_format": fmt, "compression_mode": c["compression"], "examples_mode": c["examples"],
           "disable_or_statements": c["or"][0], "allow_redundant_or": c["or"][1], "namespaces_dict": {EX: "ex"}}
+    for k_ in ("disable_or_statements", "allow_redundant_or"):
+        if kw[k_] == "omit":
+            del kw[k_]
     ext = {"nt": "nt", "tsv_spo": "tsv", "turtle": "ttl", "turtle_iter": "ttl", "n3": "n3", "xml": "xml", "json-ld": "json"}.get(fmt if isinstance(fmt, str) else "?", "nt")
     for s in c["sources"]:
         if s == "graph_file_input":
@@ -349,6 +355,10 @@ def enumerate_cases(tier):
         for o in ors:
             yield dict(base, sources=["raw_graph"], targets=[], all_classes=True, examples=ex)
             yield {"sources": ["raw_graph"], "targets": ["target_classes"], "all_classes": False, "format": "nt", "compression": None, "examples": ex, "or": o}
+    # or-flags left at their defaults (not passed): the check must see the default, not the absence
+    for o in (["omit", True], ["omit", False], [True, "omit"], [False, "omit"], ["omit", "omit"]):
+        yield dict(base, sources=["raw_graph"], targets=[], all_classes=True, **{"or": o})
+        yield {"sources": ["raw_graph"], "targets": ["target_classes"], "all_classes": False, "format": "nt", "compression": None, "examples": None, "or": o}
     # (D) near-miss unknown values: the single representative 'bogus' cannot tell a membership test from a substring / prefix /
     # case-insensitive test, so every argument with a closed vocabulary is also probed with strings derived from the valid ones
     # None is 'no compression' / 'no examples' for those two arguments, but it names no input or output format
